@@ -89,6 +89,8 @@ type c07Case struct {
 	CutBad   string   `json:"cut_bad,omitempty"` // first byte-level cut of the newest file whose replay is not a prefix / fails
 	NCuts    int      `json:"n_cuts,omitempty"`
 	Fatal    string   `json:"fatal,omitempty"`
+	// crash stage: lengths of the write system calls per log file, in order (file name -> lengths)
+	SysWrites map[string][]int `json:"sys_writes,omitempty"`
 }
 
 func replayDir(cfg walCfg, dir string) ([][]byte, error) {
@@ -196,7 +198,7 @@ func (c *c07Case) Exec() {
 			c.Fatal = fmt.Sprint("panic: ", r)
 		}
 	}()
-	c.Fatal, c.Files, c.Replayed, c.ReplErr, c.Images = "", nil, nil, "", nil
+	c.Fatal, c.Files, c.Replayed, c.ReplErr, c.Images, c.SysWrites = "", nil, nil, "", nil, nil
 	dir := tmpDir("c07-")
 	defer os.RemoveAll(dir)
 	// the directory name is configuration too: pattern metacharacters must be taken literally
@@ -295,6 +297,10 @@ func (c *c07Case) Exec() {
 		case "write":
 			dirty[e.Path] = true
 			lastWritten = e.Path
+			if c.SysWrites == nil {
+				c.SysWrites = map[string][]int{}
+			}
+			c.SysWrites[filepath.Base(e.Path)] = append(c.SysWrites[filepath.Base(e.Path)], len(e.Data))
 		case "fsync":
 			dirty[e.Path] = false
 		case "unlink":
@@ -312,7 +318,7 @@ func (c *c07Case) Exec() {
 	if replayExplainsFinal(img, root) != "" {
 		// the traced events do not reproduce the directory the child left: the trace was not understood, nothing
 		// follows from its images
-		c.Images, c.Unsynced = nil, nil
+		c.Images, c.Unsynced, c.SysWrites = nil, nil, nil
 	}
 }
 
@@ -480,6 +486,30 @@ func (c *c07Case) Sx() string {
 	}
 	for _, r := range c.Replayed {
 		recs = append(recs, sxB(r))
+	}
+	if c.Crash && len(c.SysWrites) > 0 && !c.Cfg.Facade {
+		// the traced session: buffer size, one flag per append, and the write system calls of every log file
+		var syncs, writes []string
+		for _, o := range c.Ops {
+			if o.Op != "rotate" {
+				syncs = append(syncs, sxBool(o.Op == "appendsync"))
+			}
+		}
+		var names []string
+		for n := range c.SysWrites {
+			names = append(names, n)
+		}
+		sort.Strings(names)
+		for _, n := range names {
+			var num uint64
+			fmt.Sscanf(strings.TrimSuffix(n, ".wal"), "%d", &num)
+			var lens []string
+			for _, l := range c.SysWrites[n] {
+				lens = append(lens, sxI(l))
+			}
+			writes = append(writes, sxL(sxN(num), sxList(lens)))
+		}
+		return sxL(sxN(c.Cfg.MaxSize), sxList(ops), sxList(files), sxList(recs), sxL(sxI(c.Cfg.WBuf), sxList(syncs), sxList(writes)))
 	}
 	return sxL(sxN(c.Cfg.MaxSize), sxList(ops), sxList(files), sxList(recs))
 }
